@@ -246,6 +246,41 @@ theorem parseText_spelled {src : Str} {s s' : Lex.Stream} {t : Token}
             simp
     exact this _ k hk
 
+/-- `skip_chars(|_, c| c != '<')` stops at the end of the text or in front of a `<`. -/
+theorem scanChars_lt_stop : ∀ (r : Str) (k : Nat), scanChars (fun _ c => c != '<') r = some k →
+    (r.drop k).isEmpty = true ∨ (r.drop k).head? = some '<' := by
+  intro r
+  induction r with
+  | nil => intro k h; simp only [scanChars, Option.some.injEq] at h; subst h; exact .inl rfl
+  | cons c cs ih =>
+    intro k h
+    simp only [scanChars] at h
+    split at h
+    · cases h
+    · split at h
+      · simp only [Option.map_eq_some_iff] at h
+        obtain ⟨k', hk', rfl⟩ := h
+        simpa using ih k' hk'
+      · next hf =>
+        simp only [Option.some.injEq] at h
+        subst h
+        right
+        have : c = '<' := by simpa using hf
+        simp [this]
+
+theorem parseText_after {s s' : Lex.Stream} {t : Token} (h : parseText s = some (t, s')) :
+    s'.atEnd = true ∨ s'.curr? = some '<' := by
+  simp only [parseText, Option.bind_eq_bind, Option.bind_eq_some_iff] at h
+  obtain ⟨s1, h1, h⟩ := h
+  have e : s' = s1 := by
+    split at h
+    · simp at h
+    · simp at h; exact h.2.symm
+  subst e
+  simp only [skipChars, Option.map_eq_some_iff] at h1
+  obtain ⟨k, hk, rfl⟩ := h1
+  exact scanChars_lt_stop _ k hk
+
 /-! ### One call of `parse_next_impl` -/
 
 /-- The character-data facts of a token step: what kind of token it is and, when the tokenizer is
@@ -256,10 +291,17 @@ structure StepFacts (src : Str) (tk : Tokenizer) (t : Token) (tk' : Tokenizer) :
   charStart : t.isCharData = true → tk.state = .elements ∧ t.wholeSpan.start = tk.stream.pos
   charStop : t.isCharData = true → t.wholeSpan.stop = tk'.stream.pos
   declState : t.isDecl = true → tk'.state = .afterDeclaration
+  textBefore : t.isTextTok = true → tk.stream.curr? ≠ some '<'
+  textAfter : t.isTextTok = true → tk'.stream.atEnd = true ∨ tk'.stream.curr? = some '<'
+
+theorem Token.isCharData_of_isTextTok {t : Token} (h : t.isTextTok = true) : t.isCharData = true := by
+  cases t <;> simp_all [Token.isTextTok, Token.isCharData]
 
 theorem StepFacts.of_other {src : Str} {tk tk' : Tokenizer} {t : Token} (hs : t.Spelled src)
     (h1 : t.isCharData = false) (h2 : t.isDecl = false) : StepFacts src tk t tk' :=
-  ⟨hs, fun h => (by rw [h1] at h; cases h), fun h => (by rw [h1] at h; cases h), fun h => (by rw [h2] at h; cases h)⟩
+  ⟨hs, fun h => (by rw [h1] at h; cases h), fun h => (by rw [h1] at h; cases h), fun h => (by rw [h2] at h; cases h),
+    fun h => (by rw [Token.isCharData_of_isTextTok h] at h1; cases h1),
+    fun h => (by rw [Token.isCharData_of_isTextTok h] at h1; cases h1)⟩
 
 /-- The `Elements` arm of `parse_next_impl`, with the tests that select the parser. -/
 theorem parseNextImpl_elements {src : Str} {tk tk' : Tokenizer} {t : Token}
@@ -283,7 +325,8 @@ theorem parseNextImpl_elements {src : Str} {tk tk' : Tokenizer} {t : Token}
             obtain ⟨s', hr, rfl⟩ := Step.ofParse_token h
             have hsp := parseCdata_spelled (src := src) ho hr
             obtain ⟨s2, rfl, r1, r2⟩ := parseCdata_form hr
-            refine ⟨hsp, fun _ => ⟨hst, rfl⟩, fun _ => ?_, fun hd => (by cases hd)⟩
+            refine ⟨hsp, fun _ => ⟨hst, rfl⟩, fun _ => ?_, fun hd => (by cases hd), fun hd => (by cases hd),
+              fun hd => (by cases hd)⟩
             exact Reach.sliceBack_stop (((Reach.adv _ 9).trans r1).trans r2)
           · simp at h
       · split at h
@@ -306,8 +349,10 @@ theorem parseNextImpl_elements {src : Str} {tk tk' : Tokenizer} {t : Token}
     obtain ⟨s', hr, rfl⟩ := Step.ofParse_token h
     have hc' : (tk.stream.curr? == some '<') = false := by simpa using hc
     have hsp := parseText_spelled (src := src) hc' he hr
+    have haft := parseText_after hr
     obtain ⟨rfl, r⟩ := parseText_form hr
-    exact ⟨hsp, fun _ => ⟨hst, rfl⟩, fun _ => Reach.sliceBack_stop r, fun hd => (by cases hd)⟩
+    exact ⟨hsp, fun _ => ⟨hst, rfl⟩, fun _ => Reach.sliceBack_stop r, fun hd => (by cases hd),
+      fun _ => (by simpa using hc), fun _ => haft⟩
 
 /-- Every token step. -/
 theorem parseNextImpl_facts {src : Str} {tk tk' : Tokenizer} {t : Token}
@@ -319,7 +364,8 @@ theorem parseNextImpl_facts {src : Str} {tk tk' : Tokenizer} {t : Token}
     cases ts with
     | decl _ hp =>
       obtain ⟨v, e, sa, sp, rfl⟩ := parseDeclaration_form hp
-      exact ⟨trivial, fun hx => (by cases hx), fun hx => (by cases hx), fun _ => rfl⟩
+      exact ⟨trivial, fun hx => (by cases hx), fun hx => (by cases hx), fun _ => rfl, fun hx => (by cases hx),
+        fun hx => (by cases hx)⟩
     | doctype _ _ hp _ =>
       rcases (parseDoctype_good hw hp).2 with ⟨sp, rfl⟩ | ⟨sp, rfl⟩ <;> exact .of_other trivial rfl rfl
     | entity _ hp =>
@@ -354,7 +400,8 @@ theorem lexLoop_spelled (src : Str) (tk : Tokenizer) (position : Nat) :
     SWf src tk.stream →
     (∀ t ∈ (lexLoop tk position).1, t.Spelled src) ∧
     (∀ t rest, (lexLoop tk position).1 = t :: rest → t.isCharData = true →
-      tk.state = .elements ∧ t.wholeSpan.start = tk.stream.pos) ∧
+      tk.state = .elements ∧ t.wholeSpan.start = tk.stream.pos ∧
+        (t.isTextTok = true → tk.stream.curr? ≠ some '<')) ∧
     AdjChain CharAdj (lexLoop tk position).1 := by
   fun_induction lexLoop tk position with
   | case1 tk pos hc =>
@@ -384,19 +431,29 @@ theorem lexLoop_spelled (src : Str) (tk : Tokenizer) (position : Nat) :
     · intro t0 rest hl hcd
       simp only [List.cons.injEq] at hl
       obtain ⟨rfl, _⟩ := hl
-      exact sf.charStart hcd
+      exact ⟨(sf.charStart hcd).1, (sf.charStart hcd).2, sf.textBefore⟩
     · cases hr : r.1 with
       | nil => trivial
       | cons t2 rest =>
         rw [hr] at h3
         refine ⟨?_, h3⟩
         intro hcd
-        obtain ⟨hst, hstart⟩ := h2 t2 rest hr hcd
-        refine ⟨?_, fun hc1 => ?_⟩
+        obtain ⟨hst, hstart, htb⟩ := h2 t2 rest hr hcd
+        refine ⟨?_, fun hc1 => ?_, fun ht1 => ?_⟩
         · cases hd : t.isDecl with
           | false => rfl
           | true => have := sf.declState hd; rw [hst] at this; cases this
         · rw [sf.charStop hc1, hstart]
+        · cases ht2 : t2.isTextTok with
+          | false => rfl
+          | true =>
+            rcases sf.textAfter ht1 with hae | hlt
+            · -- nothing follows the end of the text
+              have : r.1 = [] := by
+                show (lexLoop tk' tk'.stream.pos).1 = []
+                rw [lexLoop]; simp [hae]
+              rw [this] at hr; cases hr
+            · exact absurd hlt (htb ht2)
   | case4 tk pos hc hs =>
     intro _
     exact ⟨fun t ht => (by cases ht), fun t rest h => (by cases h), trivial⟩
